@@ -1,6 +1,7 @@
 package extractor
 
 import (
+	"fmt"
 	"strings"
 
 	"github.com/internetarchive/Zeno/pkg/models"
@@ -21,6 +22,14 @@ func IsPDF(URL *models.URL) bool {
 
 func PDF(URL *models.URL) (outlinks []*models.URL, err error) {
 	defer URL.RewindBody()
+
+	// The PDF parser panics on some damaged files (slice bounds out of range):
+	// a hostile document must cost this URL an error, not the whole crawler
+	defer func() {
+		if r := recover(); r != nil {
+			outlinks, err = nil, fmt.Errorf("pdf parser panicked: %v", r)
+		}
+	}()
 
 	annots, err := pdfapi.Annotations(URL.GetBody(), nil, nil)
 	if err != nil {
